@@ -1671,7 +1671,7 @@ def check_C11(ctx):
             fresh = [cache_[id(o[1])] if o[0] in ('p', 'q') else None for o in ops]
             hs.append((h, ops, fresh))
     # many calls on a rule with many comparisons: more than 2^20 (2^24) comparisons through one evaluator in total
-    for (nops_, ncalls_) in ([(300, 3600)] if ctx.quick else [(300, 3600), (300, 60000), (40, 30000)]):
+    for (nops_, ncalls_) in ([(300, 3600)] if ctx.quick else [(300, 3600), (300, 5000), (100, 20000), (40, 30000)]):   # one case line stays below the 64 MB the readers accept
         text_ = ' and '.join('k%d eq %d' % (i, i) for i in range(nops_))
         oa_ = obj({'k%d' % i: I(i) for i in range(nops_)})
         ob_ = obj({'k%d' % i: I(i) for i in range(nops_ - 1)})
